@@ -7,6 +7,7 @@ crash point (K1, every offset of the document in sweep mode), one or two edits
 route under the step clock.
 """
 import re
+import sys
 
 import dendropy
 from dendropy.utility import error as dperror
@@ -23,7 +24,7 @@ VARIANTS = ["c20:sweep", "c20:edits"]
 KEYWORDS = ["BEGIN", "END", "MATRIX", "TREE", ";", "TAXA", "TREES", "CHARACTERS", "DATA", "DIMENSIONS", "FORMAT",
             "TAXLABELS", "TRANSLATE", "TITLE", "LINK", "NTAX", "NCHAR", "=", "SETS", "CHARSET", "INTERLEAVE", "ALL"]
 ALPHABET = {
-    "newick": list("(),:;[]'\" \n_&") + ["a", "B", "1", "0.5", "e-3", "[&R]", "[&U]", "''"],
+    "newick": list("(),:;[]'\" \n_&") + ["a", "B", "1", "0.5", "e-3", "[&R]", "[&U]", "''", "[&W 1/2]", "[&W 1/0]", "[&W x]", "0"],
     "nexus": list("(),:;[]'\"= \n{}-?_&#*\\/.") + ["a", "B", "1", "0", "0.5", "A", "C", "G", "T"] + KEYWORDS,
     "phylip": list(" \n\t-?") + ["A", "C", "G", "T", "1", "0", "2", "10", "t1", "x"],
     "fasta": list(">\n -?;") + ["A", "C", "G", "T", "t1", "x"],
@@ -37,6 +38,7 @@ NEXUS_STATEMENTS = [
     "MATRIX a ACGT b ACGT c ACGT;", "MATRIX a AC b AC c AC;", "MATRIX a 0101 b 1{01}0(01) c ....;", "MATRIX\na AC\nb AC\n\na GT\nb GT\n;",
     "MATRIX a 0.5 1.5 b 2 3;", "MATRIX", "MATRIX;", "BEGIN TREES;", "TRANSLATE 1 a, 2 b, 3 c;", "TRANSLATE 1 a, 2 b;", "TRANSLATE;",
     "TREE t = (1,2,3);", "TREE t = ((a,b),c);", "TREE * t = [&R] ((a:1,b:2):3,c:4);", "TREE t = (a,b,d);", "TREE = (a,b);", "TREE t (a,b);",
+    "TREE w1 = [&W 1/2] (a,b,c);", "TREE w2 = [&W 1/0] (a,b,c);", "TREE w3 = [&W 0/0] [&R] (a,(b,c));", "TREE w4 = [&W] (a,b,c);",
     "BEGIN SETS;", "CHARSET x = 1-3;", "CHARSET y = 1 2 .;", "CHARSET z = 1-.\\2;", "CHARSET s0 = 1-4\\0;", "CHARSET s1 = 2-1;", "CHARSET s2 = 1-3/0;", "CHARSET w = all;", "CHARSET a1 = all 3;", "CHARSET a2 = ALL 2-3;", "CHARSET a3 = 1 all;", "CHARSET v = 9;", "CHARSET;",
     "LINK TAXA = t;", "LINK CHARACTERS = c;", "LINK FOO = bar;", "TITLE t;", "TITLE c;", "TITLE;", "BEGIN FOO;", "bar baz;", "BEGIN;",
     "[a comment]", "[unterminated comment", "'unterminated quote",
@@ -252,6 +254,8 @@ class C20(Machine):
                 kwargs["preserve_underscores"] = True
             if rng.random() < 0.2:
                 kwargs["extract_comment_metadata"] = rng.random() < 0.5
+            if rng.random() < 0.3:
+                kwargs["store_tree_weights"] = True
         text = doc["text"]
         steps = [{"k": "intact"}]
         if self.mode == "sweep":
@@ -298,6 +302,16 @@ class C20(Machine):
                             else:
                                 stm.insert(j, stm[j])
                     steps.append({"k": "soup", "text": "#NEXUS\n" + "\n".join(stm) + "\n"})
+                elif rng.random() < 0.4 and doc["schema"] in ("newick", "nexus"):
+                    # a long run of comments (a valid document: many files start with pages of comment lines)
+                    n = rng.choice([300, 990, 1200, 4000])
+                    run = rng.choice(["[c] ", "[c]\n", "[&a=1] ", "[c][d] "]) * n
+                    if doc["schema"] == "nexus":
+                        core = "#NEXUS\n" + (run if rng.random() < 0.5 else "") + "BEGIN TREES;\n" + (run if rng.random() < 0.5 else "") + "TREE t = " + \
+                               (run if rng.random() < 0.3 else "") + "(a,b);\nEND;\n"
+                    else:
+                        core = run + "(a,b);" if rng.random() < 0.5 else "(a," + run + "b);"
+                    steps.append({"k": "soup", "text": core})
                 else:
                     # deep nesting: the node parser recurses once per level
                     n = rng.choice([300, 990, 1200, 4000])
@@ -367,13 +381,24 @@ class C20(Machine):
         result = None
         exc = None
         g = clock.guard(budget)
-        with g:
-            try:
-                result = self.read(cfg, text)
-            except stepclock.StepBudgetExceeded:
-                raise
-            except Exception as e:
-                exc = e
+        # the same recursion headroom whatever the depth of the caller's stack (worker, replay, minimiser)
+        depth = 0
+        f = sys._getframe()
+        while f is not None:
+            depth += 1
+            f = f.f_back
+        limit = sys.getrecursionlimit()
+        sys.setrecursionlimit(depth + 1000)
+        try:
+            with g:
+                try:
+                    result = self.read(cfg, text)
+                except stepclock.StepBudgetExceeded:
+                    raise
+                except Exception as e:
+                    exc = e
+        finally:
+            sys.setrecursionlimit(limit)
         if g.expired:
             return "expired", g, g.used, None
         if exc is not None:
@@ -567,6 +592,12 @@ def _dendropy_frames(tb):
 
 def _innermost(e):
     fr = _dendropy_frames(e.__traceback__)
+    if isinstance(e, RecursionError) and fr:
+        # where the limit is finally hit is an accident of the stack depth; name the function that recurses
+        count = {}
+        for f in fr:
+            count[f] = count.get(f, 0) + 1
+        return sorted(count, key=lambda f: (-count[f], f))[0]
     return fr[-1] if fr else "?"
 
 
